@@ -19,6 +19,17 @@ access, iterator pulls, guard calls); then for k = 1..N the k-th point raises a 
 KeyError (own name / foreign key), DTReturn, a BaseException subclass, and point-specific
 Unauthorized / AttributeError / IndexError; then pairs (k, j>k) over the points that the
 k-faulted run still reaches (handlers, else, finally blocks, later siblings).
+
+Heterogeneous sequences: dtml-in decides per element what it pushes, so the atlas also holds every
+ordered pair (and, over a reduced alphabet, every triple) of element kinds -- object, dict, custom
+mapping, (key, object) / (key, string) / (key, dict) 2-tuples, str, bytes, int, float, None, list --
+rendered by the unbatched tag and by the batched tag in every window form (size / start / end alone
+and combined, whole sequence or part of it, orphan / overlap), crossed with mapping, no_push_item,
+sort, sort_expr, reverse, reverse_expr, prefix, expr=, skip_unauthorized, four container types and
+nine enclosing shapes.  These need NO fault to be decisive (the fault-free run is checked by every
+frame comparison, the caller-namespace comparison and the head/tail probes) and are fault-enumerated
+like every other template.  A harness-side body probe records which element each body rendering was
+for; finish() demands every ordered pair of element classes for both tags from that record.
 """
 import hashlib
 import json
@@ -29,8 +40,12 @@ ID = 'C08'
 LEVEL = 'fault_enumeration'
 RULE = ('templates = a deterministic atlas (every block kind alone, inside try/except/else, inside '
         'try/finally, every ordered pair of block kinds, engine-raised exceptions inside every block '
-        'kind, guarded variants with refused items, recursion-limit and tree-swallow scenarios) plus '
-        'seeded random trees nested <= 3; for each template and call mode (sub-template protocol with a '
+        'kind, guarded variants with refused items, recursion-limit and tree-swallow scenarios; dtml-in '
+        'over heterogeneous sequences: every ordered pair / reduced-alphabet triple of element kinds x '
+        'unbatched + every batch window form x option / container / enclosing-shape rotation; with over '
+        'str / number / None / 2-tuple / non-dict mapping / only+mapping values; sub-template calls with '
+        'client+keywords and client paths of 0..3 objects) plus '
+        'seeded random trees nested <= 3 (drawing from the same element kinds and window forms); for each template and call mode (sub-template protocol with a '
         'harness-owned TemplateDict / with client+keywords / top-level call) a fault-free run counts the '
         'N fault points, then every k in 1..N is faulted with every applicable fault kind, then pairs '
         '(k,j). distinct = distinct (template source, mode, fault plan); non-trivial = at least one '
@@ -44,13 +59,21 @@ ASSUMPTIONS = ['a top-level call renders into a namespace it creates itself: its
                'names; engine-maintained loop variables other than sequence-item/-index are not part '
                'of the vocabulary',
                'imbalanced frames that enclose an already reported imbalanced frame on the same '
-               'namespace are counted as cascades, not reported again']
+               'namespace are counted as cascades, not reported again',
+               'heterogeneous sequences: no output text is modelled; a loop whose body raises because of '
+               'the element (e.g. `mapping` over a string element) is just one more exceptional exit '
+               'path on which every frame must be balanced',
+               'wrappers on engine-internal functions (renderwb, render_try_except, tpRender, ...) are '
+               'diagnosis: when one cannot be placed or is never entered, the verdict rests on the '
+               'enclosing frames, the caller-namespace comparison and the head/tail probes, and the run '
+               'is inconclusive only if those did not evaluate (coverage.diagnosis_only lists them)']
 SHARD_TIMEOUT = {'quick': 900, 'thorough': 3400}
 NSHARDS = {'quick': 16, 'thorough': 48}
 NRANDOM = {'quick': 320, 'thorough': 5000}
 PAIR_CAP = {'quick': 24, 'thorough': 120}
 SINGLE_CAP = {'quick': 160, 'thorough': 1200}
 ATLAS_PAIR_STRIDE = {'quick': 6, 'thorough': 1}
+MIXED_PAIR_CAP = {'quick': 10, 'thorough': 30}   # the mixed family is large and decisive without faults
 
 MECH_TREE = 'tree-get_items-push-not-popped-when-branches_expr-raises'
 MECH_REC = 'recursion-limit-raised-after-pushing-defaults'
@@ -136,7 +159,23 @@ WRAPPERS = [
                                [T('n')]]),
     ('tree-leaves', lambda b: ['tree', {'expand_all': 1, 'leaves': b, 'shape': 'ab'}, [T('n')]]),
     ('tree-single', lambda b: ['tree', {'single': 1, 'nowrap': 1}, b]),
+    # value-kind / client-shape / element-kind variants (appended: the indices of the wrappers above
+    # select the quick tier's stride subset of the pair grid)
+    ('in-mixed', lambda b: IN(b, kind='mixed', mix=['o', 's', 'i'])),
+    ('in-mixed-batch', lambda b: IN(b, kind='mixed', mix=['t', 's', 'm'], batch=1, size=5)),
+    ('in-mixed-batch-mapping', lambda b: IN(b, kind='mixed', mix=['m', 'v', 'M'], mapping=1, batch=1,
+                                            nosize=1, end=3)),
+    ('with-tuple2', lambda b: ['with', 'tuple2', b]),
+    ('with-str', lambda b: ['with', 'str', b]),
+    ('with-mapobj', lambda b: ['with', 'mapobj', b]),
+    ('with-only-mapping', lambda b: ['with', 'onlymap', b]),
+    ('sub-client-kw', lambda b: ['sub', {'how': 'clientkw'}, b]),
+    ('sub-path3', lambda b: ['sub', {'how': 'tuple', 'nclients': 3}, b]),
+    ('sub-path0-kw', lambda b: ['sub', {'how': 'tuplekw', 'nclients': 0, 'defaults': 0}, b]),
+    ('tree-expand-doc', lambda b: ['tree', {'expand_all': 1, 'expand': b, 'shape': 'ab'}, [T('n')]]),
 ]
+VARIANT_WRAPPERS = frozenset(['with-tuple2', 'with-str', 'with-mapobj', 'sub-client-kw', 'sub-path0-kw',
+                              'tree-expand-doc'])
 # wrappers that need a guarded template class to be meaningful
 GUARDED_WRAPPERS = [
     ('g-in-deny', lambda b: IN(b, kind='objs', n=3, deny=1)),
@@ -154,6 +193,83 @@ ENGINE_KINDS = ('missing', 'zerodiv', 'nameerr', 'raise', 'badfmt', 'badsize', '
 RECS = [['rec', {'defaults': 1}], ['rec', {'defaults': 0}], ['rec', {'defaults': 1, 'mutual': 1}],
         ['rec', {'defaults': 1, 'pre': '<dtml-var x>'}]]
 HANDLERS = [['', [['var', 'name'], ['var', 'x']]]]
+
+
+# ---------------------------------------------------------------- heterogeneous sequences
+# dtml-in decides PER ELEMENT what it pushes (documented: items are pushed unless no_push_item;
+# 2-tuples contribute their second element; `mapping` items are pushed as they are): every order
+# of element kinds, through the batched and the unbatched tag, with every window form / option.
+MIX_BODY = [['var', 'name'], ['var', 'x'], ['var', 'item']]
+MIX_BODY2 = [['var', 'meth'], ['call', 'expr']]
+MIX_TRIPLE_PLAIN = ('o', 'm', 't', 's', 'i')
+MIX_TRIPLE_MAPPING = ('m', 'v', 's')
+MIX_FLAGS = [{}, {'nopush': 1}, {'reverse': 1}, {'sort': 1}, {'prefix': 1}, {'expr': 1}, {'sortx': 1},
+             {'revx': 1}, {'sort': 1, 'reverse': 1}, {'nopush': 1, 'sort': 1}, {'expr': 1, 'reverse': 1}]
+MIX_CONTS = ('list', 'list', 'tuple', 'lazy', 'iter')
+MIX_SHAPES = [
+    ('top', lambda n: [T('<'), n, T('>')]),
+    ('try', lambda n: [['try', [n, ['var', 'name']], HANDLERS, [['var', 'expr']]]]),
+    ('finally', lambda n: [['tryfin', [n], [['var', 'name']]], ['var', 'name']]),
+    ('let', lambda n: [['let', ['plain', 'expr'], [n, ['var', 'x']]]]),
+    ('in', lambda n: [IN([n, ['var', 'x']], kind='objs', n=2)]),
+    ('in-batch', lambda n: [IN([n, ['var', 'x']], kind='strs', n=2, batch=1, size=2)]),
+    ('with', lambda n: [['with', 'obj', [n, ['var', 'x']]]]),
+    ('sub', lambda n: [['sub', {'how': 'name'}, [n, ['var', 'x']]], ['var', 'x']]),
+    ('if', lambda n: [['if', [['name', True, [n]]], None], ['var', 'x']]),
+]
+
+
+def mix_windows(L):
+    """Every way of making the tag a batched one, by what the window covers."""
+    whole = [dict(batch=1, size=L + 3),
+             dict(batch=1, size=L, start=1, orphan=0),
+             dict(batch=1, nosize=1, end=L),
+             dict(batch=1, nosize=1, start=1),
+             dict(batch=1, nosize=1, start=1, end=L + 2)]
+    part = [dict(batch=1, nosize=1, start=2),
+            dict(batch=1, size=1, start=2, orphan=0),
+            dict(batch=1, size=2, orphan=0, overlap=0),
+            dict(batch=1, nosize=1, end=L - 1 or 1),
+            dict(batch=1, size=2, start=2, orphan=1, overlap=1)]
+    return whole, part
+
+
+def mixed_atlas(tier):
+    import itertools
+    seqs = [(0, p) for p in itertools.product(U.MIX_PLAIN, repeat=2)]
+    seqs += [(1, p) for p in itertools.product(U.MIX_MAPPING, repeat=2)]
+    seqs += [(0, p) for p in itertools.product(MIX_TRIPLE_PLAIN, repeat=3)]
+    seqs += [(1, p) for p in itertools.product(MIX_TRIPLE_MAPPING, repeat=3)]
+    out = []
+    c = 0
+    for idx, (mapping, mix) in enumerate(seqs):
+        L = len(mix)
+        whole, part = mix_windows(L)
+        if tier == 'quick':
+            if L == 3 and idx % 3:
+                continue
+            wins = [{}, whole[idx % len(whole)], part[(idx // 2) % len(part)]]
+        else:
+            wins = [{}] + whole + part
+        for w in wins:
+            for r in range(1):
+                c += 1
+                o = dict(kind='mixed', mix=list(mix), cont=MIX_CONTS[(c * 3 + r) % len(MIX_CONTS)])
+                o.update(w)
+                o.update(MIX_FLAGS[(c * 7 + r * 5) % len(MIX_FLAGS)])
+                if mapping:
+                    o['mapping'] = 1
+                guarded = c % 5 == 0
+                if guarded and c % 2:
+                    o['deny'] = c % L
+                    if c % 3:
+                        o['skip'] = 1
+                sname, shape = MIX_SHAPES[(c * 4 + r) % len(MIX_SHAPES)]
+                body = MIX_BODY + (MIX_BODY2 if c % 4 == 0 else [])
+                els = [T('none')] if c % 6 == 0 else None
+                out.append(('mixed:%s:%s' % ('batched' if w else 'unbatched', sname),
+                            shape(IN(body, els, **o)), guarded))
+    return out
 
 
 def atlas(tier):
@@ -174,6 +290,8 @@ def atlas(tier):
         for j, (n2, w2) in enumerate(WRAPPERS):
             if (i * 31 + j * 7) % stride:
                 continue
+            if (n1 in VARIANT_WRAPPERS or n2 in VARIANT_WRAPPERS) and (i + 2 * j) % 3:
+                continue        # value-kind / client-shape variants of a block kind: a third of the grid
             if n1.startswith('tree') and n2.startswith('tree'):
                 body = [['var', 'name']]
             else:
@@ -190,6 +308,7 @@ def atlas(tier):
         out.append(('rec-in-block', [IN([['try', [r], [['SystemError', [['var', 'meth']]]], None],
                                          ['var', 'meth']], kind='objs', n=2)], False))
     out.append(('rec-guarded', [['try', [RECS[0]], HANDLERS, None]], True))
+    out.extend(mixed_atlas(tier))
     return out
 
 
@@ -198,7 +317,7 @@ def gen_leaf(rng, guarded):
     r = rng.random()
     if r < 0.62:
         forms = ['name', 'name', 'hq', 'fmt', 'expr', 'expr', 'exprfmt', 'entity', 'null', 'str',
-                 'strfmt', 'meth', 'meth', 'x', 'objmeth']
+                 'strfmt', 'meth', 'meth', 'x', 'objmeth', 'item']
         return ['var', rng.choice(forms)]
     if r < 0.72:
         return ['call', rng.choice(['name', 'expr'])]
@@ -216,9 +335,16 @@ def gen_body(rng, depth, maxdepth, guarded, width=None):
 
 def gen_in_opts(rng, guarded):
     o = {'kind': rng.choice(['objs', 'objs', 'objs', 'ints', 'strs', 'maps', 'tuples', 'lazy', 'iter',
-                             'empty', 'str']),
+                             'empty', 'str', 'mixed', 'mixed', 'mixed']),
          'n': rng.choice([1, 2, 2, 3])}
-    if rng.random() < 0.35:
+    if o['kind'] == 'mixed':
+        mapping = rng.random() < 0.25
+        alphabet = U.MIX_MAPPING if mapping else U.MIX_PLAIN
+        o['mix'] = [rng.choice(alphabet) for _ in range(rng.choice([1, 2, 2, 3, 3, 4]))]
+        o['cont'] = rng.choice(MIX_CONTS)
+        if mapping:
+            o['mapping'] = 1
+    if rng.random() < (0.5 if o['kind'] == 'mixed' else 0.35):
         o.update(batch=1, size=rng.choice([1, 2, 3]))
         if rng.random() < 0.5:
             o['start'] = rng.choice([1, 2])
@@ -226,10 +352,17 @@ def gen_in_opts(rng, guarded):
             o['orphan'] = rng.choice([0, 1])
         if rng.random() < 0.3:
             o['prevnext'] = rng.choice(['previous', 'next'])
-    for f, p in (('sort', .2), ('reverse', .15), ('prefix', .2), ('nopush', .1), ('expr', .25)):
+        if rng.random() < 0.25:
+            o['end'] = rng.choice([1, 2, 3])
+        if rng.random() < 0.25:
+            o['nosize'] = 1
+        if rng.random() < 0.2:
+            o['overlap'] = rng.choice([0, 1])
+    for f, p in (('sort', .2), ('reverse', .15), ('prefix', .2), ('nopush', .1), ('expr', .25),
+                 ('sortx', .06), ('revx', .06)):
         if rng.random() < p:
             o[f] = 1
-    if guarded and o['kind'] in ('objs', 'lazy', 'tuples') and rng.random() < 0.5:
+    if guarded and o['kind'] in ('objs', 'lazy', 'tuples', 'mixed') and rng.random() < 0.5:
         o['deny'] = rng.randrange(3)
         if rng.random() < 0.5:
             o['skip'] = 1
@@ -253,7 +386,8 @@ def gen_node(rng, depth, maxdepth, guarded):
     if r < 0.32:
         return ['in', gen_in_opts(rng, guarded), B(), B(1) if rng.random() < 0.4 else None]
     if r < 0.44:
-        return ['with', rng.choice(['obj', 'obj', 'map', 'only', 'expr', 'call', 'tuple']), B()]
+        return ['with', rng.choice(['obj', 'obj', 'map', 'only', 'expr', 'call', 'tuple', 'tuple2', 'str',
+                                    'num', 'none', 'mapobj', 'onlymap']), B()]
     if r < 0.52:
         return ['let', [rng.choice(['name', 'expr', 'plain']) for _ in range(rng.choice([1, 2, 3]))], B()]
     if r < 0.70:
@@ -271,7 +405,9 @@ def gen_node(rng, depth, maxdepth, guarded):
     if r < 0.84:
         return ['comment', B(1)]
     if r < 0.94:
-        return ['sub', {'how': rng.choice(['name', 'name', 'kw', 'client', 'render']),
+        return ['sub', {'how': rng.choice(['name', 'name', 'kw', 'client', 'render', 'clientkw', 'tuple',
+                                           'tuplekw']),
+                        'nclients': rng.choice([0, 1, 2, 3]),
                         'defaults': int(rng.random() < 0.75), 'vars': int(rng.random() < 0.25)}, B()]
     if r < 0.955:
         return ['rec', {'defaults': int(rng.random() < 0.7), 'mutual': int(rng.random() < 0.3)}]
@@ -281,8 +417,8 @@ def gen_node(rng, depth, maxdepth, guarded):
         if rng.random() < p:
             o[f] = 1
     o['shape'] = rng.choice(['abc', 'ab'])
-    for f in ('header', 'footer', 'leaves'):
-        if rng.random() < 0.15:
+    for f in ('header', 'footer', 'leaves', 'expand'):
+        if rng.random() < (0.15 if f != 'expand' else 0.08):
             o[f] = gen_body(rng, maxdepth, maxdepth, guarded, 1)
     if guarded and rng.random() < 0.5:
         o['deny'] = 1
@@ -377,6 +513,7 @@ class Harness:
                 issues.append('bindings after dtml-try #%d differ from the bindings before it: %s'
                               % (site, sorted(diff.items())[:4]))
         obs['final_tail'] = final
+        obs['mix_seen'] = env.mix_seen
         obs['n'] = env.ctl.n
         obs['log'] = env.ctl.log
         obs['fired'] = env.ctl.fired
@@ -462,6 +599,7 @@ def evaluate(ctx, H, b, family, tree, guarded, mode, plan, base, level0=0):
         ctx.count('injected runs: %d fault%s' % (len(plan), '' if len(plan) == 1 else 's'))
     else:
         ctx.count('fault-free runs')
+    count_mixed(ctx, b, obs, mode, bool(plan))
     issues = obs['issues']
     if base is not None and base['issues']:
         ctx.count('oracle:fault-free run itself violated; cross-run tail comparison skipped')
@@ -485,6 +623,35 @@ def evaluate(ctx, H, b, family, tree, guarded, mode, plan, base, level0=0):
                                   'origins': own[:4], 'fired': obs['fired'],
                                   'points': obs['log'][:80]})
     return obs
+
+
+def count_mixed(ctx, b, obs, mode, faulted):
+    """Evidence that heterogeneous sequences were really iterated (harness-side record of the
+    element each body rendering was for) and that an output-level oracle then evaluated."""
+    seen = obs.get('mix_seen') or {}
+    if not seen:
+        return
+    how = 'faulted' if faulted else 'fault-free'
+    # output-level deciders: the caller's own namespace compared after the call (protocol modes),
+    # or the head/tail probes around the whole template (any mode, when the tail was reached)
+    decided = mode != 'toplevel' or obs['final_tail'] is not None
+    for name, codes in seen.items():
+        info = b.mixed_info.get(name)
+        if info is None or not codes:
+            continue
+        tag = 'batched' if info['batched'] else 'unbatched'
+        ctx.count('mixed:%s loops whose body was rendered (%s runs)' % (tag, how))
+        if faulted:
+            continue
+        classes = [U.MIX_CLASS.get(c, 'lost') for c in codes]
+        ctx.table('mixed loops by option (fault-free)', '%s | %s' % (info['flags'] or 'plain', tag))
+        for x, y in zip(classes, classes[1:]):
+            ctx.table('mixed element-kind transitions rendered (fault-free)', '%s>%s | %s' % (x, y, tag))
+            if decided:
+                ctx.table('mixed element-kind transitions decided at output level',
+                          '%s>%s | %s' % (x, y, tag))
+        if decided:
+            ctx.count('mixed:%s fault-free runs decided by caller-namespace / head-tail comparison' % tag)
 
 
 def enumerate_template(ctx, H, family, tree, guarded, modes, tier, rng):
@@ -511,6 +678,8 @@ def enumerate_template(ctx, H, family, tree, guarded, modes, tier, rng):
         ctx.count('fault points in fault-free runs', N)
         sites = base['log']
         pair_budget = PAIR_CAP[tier]
+        if family.startswith('mixed:'):
+            pair_budget = MIXED_PAIR_CAP[tier]
         singles = []
         for k in range(1, N + 1):
             kinds = applicable_kinds(sites[k - 1], tier, k)
@@ -597,18 +766,25 @@ def reach_setup():
     from DocumentTemplate import _DocumentTemplate as core
     from TreeDisplay import TreeTag
     r = Reach()
-    r.watch('String.__call__', DT_String.String.__call__)
-    r.watch('render_blocks_', core.render_blocks_)
-    r.watch('InClass.renderwb', DT_In.InClass.renderwb)
-    r.watch('InClass.renderwob', DT_In.InClass.renderwob)
-    r.watch('With.render', DT_With.With.render)
-    r.watch('Let.render', DT_Let.Let.render)
-    r.watch('Try.render_try_except', DT_Try.Try.render_try_except)
-    r.watch('Try.render_try_finally', DT_Try.Try.render_try_finally)
-    r.watch('tpRender', TreeTag.tpRender)
-    r.watch('tpRenderTABLE', TreeTag.tpRenderTABLE)
-    r.watch('TemplateDict._push', core.TemplateDict._push)
-    r.watch('TemplateDict._pop', core.TemplateDict._pop)
+    missing = []
+    for label, owner, attr in (('String.__call__', DT_String.String, '__call__'),
+                               ('render_blocks_', core, 'render_blocks_'),
+                               ('InClass.renderwb', DT_In.InClass, 'renderwb'),
+                               ('InClass.renderwob', DT_In.InClass, 'renderwob'),
+                               ('With.render', DT_With.With, 'render'),
+                               ('Let.render', DT_Let.Let, 'render'),
+                               ('Try.render_try_except', DT_Try.Try, 'render_try_except'),
+                               ('Try.render_try_finally', DT_Try.Try, 'render_try_finally'),
+                               ('tpRender', TreeTag, 'tpRender'),
+                               ('tpRenderTABLE', TreeTag, 'tpRenderTABLE'),
+                               ('TemplateDict._push', core.TemplateDict, '_push'),
+                               ('TemplateDict._pop', core.TemplateDict, '_pop')):
+        f = getattr(owner, attr, None)     # an internal may have been renamed: diagnosis only
+        if f is None:
+            missing.append(label)
+            continue
+        r.watch(label, f)
+    r.missing = missing
     return r
 
 
@@ -626,6 +802,8 @@ def run(ctx, spec):
         if family.startswith('pair:') or (tier == 'quick' and
                                           not family.startswith(('single', 'rec', 'guarded:'))):
             modes = (Harness.MODES[i % 4],)
+        elif family.startswith('mixed:'):
+            modes = (Harness.MODES[(i + i // 4) % 4],)       # a large family: one mode each, rotating
         else:
             modes = Harness.MODES
         enumerate_template(ctx, H, family, tree, guarded, modes, tier, ctx.rng)
@@ -643,11 +821,14 @@ def run(ctx, spec):
         run_repo_tests(ctx, H)
     reach.stop()
     reach.report(ctx)
+    for label in reach.missing:
+        ctx.count('reach-missing:' + label)
     H.mon.report(ctx)
     ctx.count('monitor:wrapped callables', len(H.mon.wrapped))
     ctx.count('executions', H.runs)
 
 
+MIX_CLASSES = ('obj', 'map', 'pair', 'str', 'num')
 REQUIRED_FRAMES = ('String.__call__(sub-template)', 'String.__call__(top-level)', 'render_blocks_',
                    'InClass.renderwb', 'InClass.renderwob', 'With.render', 'Let.render',
                    'Try.render', 'Try.render_try_except', 'Try.render_try_finally', 'Raise.render',
@@ -664,11 +845,16 @@ def finish(agg):
         inc.append('the monitor saw zero exceptional exits')
     if not c.get('monitor:exits DTReturn'):
         inc.append('the monitor saw zero DTReturn exits')
+    # ---- output-level deciders (independent of which engine internals could be wrapped)
+    output_level = all(c.get(k) for k in ('oracle:caller namespace compared after the call',
+                                          'oracle:try head/tail binding comparisons',
+                                          'oracle:final tail compared with the fault-free run'))
+    diagnosis = []
     for r in ('String.__call__', 'render_blocks_', 'InClass.renderwb', 'InClass.renderwob', 'With.render',
               'Let.render', 'Try.render_try_except', 'Try.render_try_finally', 'tpRender', 'tpRenderTABLE',
               'TemplateDict._push', 'TemplateDict._pop'):
         if not c.get('reach:' + r):
-            inc.append('anchor never entered: ' + r)
+            diagnosis.append('anchor never entered: ' + r)
     exits = t.get('frame exits by kind', {})
     for f in REQUIRED_FRAMES:
         for how in ('return', 'exception'):
@@ -677,7 +863,37 @@ def finish(agg):
             if f == 'Raise.render' and how == 'return':
                 continue
             if not exits.get('%s | %s' % (f, how)):
-                inc.append('monitored frame kind %s never left by %s' % (f, how))
+                diagnosis.append('monitored frame kind %s never left by %s' % (f, how))
+    # wrappers on engine internals give the precise origin of an imbalance; when one of them could
+    # not be placed (renamed internal) the enclosing frames and the output-level comparisons still
+    # decide: that is reported as diagnosis, and only as inconclusive when the output-level oracle
+    # did not evaluate either, or when the PUBLIC entry point frames were never compared
+    public = ('String.__call__',)
+    for d in diagnosis:
+        if not output_level or any(('anchor never entered: ' + x) == d or
+                                   ('frame kind %s(' % x) in d for x in public):
+            inc.append(d)
+    # ---- heterogeneous sequences (harness-side record of what was iterated)
+    trans = t.get('mixed element-kind transitions decided at output level', {})
+    for tag in ('batched', 'unbatched'):
+        if not c.get('mixed:%s fault-free runs decided by caller-namespace / head-tail comparison' % tag):
+            inc.append('no fault-free %s loop over a mixed sequence was decided at output level' % tag)
+        if not c.get('mixed:%s loops whose body was rendered (faulted runs)' % tag):
+            inc.append('no faulted run rendered a %s loop over a mixed sequence' % tag)
+        for x in MIX_CLASSES:
+            for y in MIX_CLASSES:
+                if not trans.get('%s>%s | %s' % (x, y, tag)):
+                    inc.append('mixed sequence: element kind %s followed by %s never rendered by the %s '
+                               'dtml-in in a fault-free run decided at output level' % (x, y, tag))
+    opts_seen = set()
+    for k in t.get('mixed loops by option (fault-free)', {}):
+        for w in k.split(' | ')[0].split('+'):
+            opts_seen.add((w, k.split(' | ')[1]))
+    for tag in ('batched', 'unbatched'):
+        for w in ('plain', 'mapping', 'no_push_item', 'sort', 'reverse', 'sort_expr', 'reverse_expr',
+                  'prefix'):
+            if (w, tag) not in opts_seen:
+                inc.append('mixed sequence never rendered by the %s dtml-in with option %s' % (tag, w))
     blocks = {}
     for k, n in t.get('faults by enclosing block kind', {}).items():
         blk = k.split(' | ')[0]
@@ -704,11 +920,16 @@ def finish(agg):
             inc.append('call mode never used: ' + m)
     feats = t.get('template features', {})
     for need in ('rec:defaults', 'rec:nodefaults', 'tree:branches=expr', 'tree:branches=named',
-                 'tree:expand_all', 'engine:strseq', 'in:iter', 'in:lazy'):
+                 'tree:expand_all', 'engine:strseq', 'in:iter', 'in:lazy', 'in:mixed:list',
+                 'in:mixed:tuple', 'in:mixed:lazy', 'in:mixed:iter', 'in:mixed:mapping', 'in:batch:size',
+                 'in:batch:start', 'in:batch:end', 'in:batch:size+start', 'in:batch:start+end',
+                 'with:str', 'with:tuple2', 'with:mapobj', 'with:onlymap', 'sub:clients=0',
+                 'sub:clients=1', 'sub:clients=3'):
         if not feats.get(need):
             inc.append('scenario never generated: ' + need)
     return {'inconclusive': inc,
             'coverage': {'exhaustive': False,
+                         'diagnosis_only': [d for d in diagnosis if d not in inc],
                          'explanation': 'every fault point k=1..N of every template/mode is faulted with '
                                         'every applicable kind (exhaustive per template); pairs are capped '
                                         'per template (%r); the template set is an atlas plus seeded '
